@@ -54,9 +54,11 @@ def work(arg):
                 s = Scheduler(config=Config(config_dict=cfg))
                 s.load(migrate=False)
                 before = COUNT["subrun_root"]
-                sr = subrun if check_valid is None else subrun.options(check_valid=check_valid)
+                # cache options reach subrun either through .options() or as keyword task options of the call itself
+                kw_opts = {"kw:full": {"check_valid": "full"}, "kw:scope-none": {"cache_scope": "NONE"}}.get(check_valid, {})
+                sr = subrun if check_valid is None or kw_opts else subrun.options(check_valid=check_valid)
                 try:
-                    v = s.run(sr(progs.build(ast), executor="default", new_execution=ne_runs[run_i], load_modules=["wf.tasks"]), cache=cache)
+                    v = s.run(sr(progs.build(ast), executor="default", new_execution=ne_runs[run_i], load_modules=["wf.tasks"], **kw_opts), cache=cache)
                     out = ("ok", v)
                 except Exception as e:  # noqa: BLE001
                     out = ("err", type(e).__name__, str(e))
@@ -74,7 +76,7 @@ def work(arg):
                                  f"subrun({ast!r}) {mode} run {i + 1} gave {out!r}, direct evaluation gives {sorted(expected, key=repr)!r}"))
             if calls[0] != 1:
                 viol.append((f"subrun-root-not-run-once:{mode}", case, f"{ast!r} {mode}: first execution ran the sub-scheduler {calls[0]} times"))
-            if (check_valid == "full" or not cache) and calls[1] != 1 and outs[0][0] == "ok":
+            if (check_valid in ("full", "kw:full", "kw:scope-none") or not cache) and calls[1] != 1 and outs[0][0] == "ok":
                 viol.append((f"subrun-replayed-without-running:{mode}", case,
                              f"{ast!r} {mode}: second execution did not start the sub-scheduler ({calls[1]} runs) although only CSE/ultimate hits are allowed"))
             if ne_runs[0] != ne_runs[1] and calls[1] != 1 and outs[0][0] == "ok":
@@ -199,7 +201,7 @@ def run(ctx):
     extra = [("call", "add", (("call", "inc", (("c", 1),)), ("call", "fail", (("c", 0),)))), ("seq", (("call", "inc", (("c", 0),)), ("call", "twice", (("c", 1),)))),
              ("catch", ("call", "fail", (("c", 1),)), "ValueError", "recover"), ("list", (("call", "fan", (("c", 0),)), ("call", "mklist", (("c", 1),))))]
     fam = fam + extra
-    configs = [(False, True, None), (True, True, None), (False, False, None), (False, True, "full"), ((True, False), True, None), ((False, True), True, None)]
+    configs = [(False, True, None), (True, True, None), (False, False, None), (False, True, "full"), (False, True, "kw:full"), (False, True, "kw:scope-none"), ((True, False), True, None), ((False, True), True, None)]
     if not ctx.quick:
         configs += [(True, False, None), (True, True, "full")]
     work_items = [(fam[i:i + 6], ne, c, cv) for (ne, c, cv) in configs for i in range(0, len(fam), 6)]
